@@ -309,6 +309,11 @@ func Apply(ctx context.Context, rc *regclient.RegClient, rSrc ref.Ref, opts ...O
 					rdr = nil
 				}
 			}
+			if dl.mod == added && dl.newDesc.MediaType == "" && rdr != nil {
+				// the added layer was pushed when it was created and no step gave it a new descriptor
+				_ = rdr.Close()
+				rdr = nil
+			}
 			// if added or replaced, and reader not nil, push blob
 			if (dl.mod == added || dl.mod == replaced) && rdr != nil {
 				// push the blob and verify the results
